@@ -232,25 +232,28 @@ def judge_oneaudit_audit(m, N, k_win, pooled, r1, r2, alpha):
     return [], got
 
 
-def judge_polling(m, N, n_win, n_lose, alpha):
-    con, asn, audit, _ = comparison_contest(N, n_win, Audit.AUDIT_TYPE.POLLING, m, alpha)
+def judge_polling(m, N, n_win, n_lose, alpha, share=None):
+    con, asn, audit, _ = comparison_contest(N, n_win, Audit.AUDIT_TYPE.POLLING, m, alpha, share)
     con.tally = {"A": n_win, "B": n_lose}
+    ub = 1 if not share else 1 / (2 * share)
     with warnings.catch_warnings():
         warnings.simplefilter("ignore")
         asn.find_margin_from_tally()
-        asn.test.u = 1
+        if not (asn.margin > 0):
+            return [], None
+        asn.test.u = ub
         try:
             got = asn.find_sample_size(data=None, reps=None)
         except Exception as e:  # noqa
             return [(f"C16|find_sample_size|POLLING|exception|{type(e).__name__}", f"polling estimate from tallies raised {type(e).__name__}: {str(e)[:80]}")], None
-        pop = Assertion.interleave_values(n_lose, N - n_win - n_lose, n_win, big=1)
-        if sorted(pop) != sorted([0.0] * n_lose + [0.5] * (N - n_win - n_lose) + [1.0] * n_win):
+        pop = Assertion.interleave_values(n_lose, N - n_win - n_lose, n_win, big=ub)
+        if sorted(pop) != sorted([0.0] * n_lose + [0.5] * (N - n_win - n_lose) + [float(ub)] * n_win):
             return [], None  # interleave defect: reported by clause (d)
-        twin = NonnegMean(test=con.test, estim=con.estim, bet=con.bet, u=1, N=N, t=1 / 2, g=con.g, **con.test_kwargs)
+        twin = NonnegMean(test=con.test, estim=con.estim, bet=con.bet, u=ub, N=N, t=1 / 2, g=getattr(asn.test, "g", 0), **con.test_kwargs)
         hist = twin.test(np.array(pop))[1]
     want = first_crossing(hist, alpha, N)
     if got != want:
-        return [("C16|find_sample_size|POLLING", f"tally A={n_win}, B={n_lose}, N={N}: interleaved population first crosses {alpha} at {want}, estimate {got}")], got
+        return [("C16|find_sample_size|POLLING" + ("|supermajority" if share else ""), f"tally A={n_win}, B={n_lose}, N={N}{', share ' + str(share) if share else ''}: interleaved population first crosses {alpha} at {want}, estimate {got}")], got
     return [], got
 
 
@@ -641,6 +644,15 @@ def run_shard(sh, rec):
                         rec.outcome(("poll", mi, N, n_win, n_lose, alpha))
                     for key, what in v:
                         rec.violate(key, what, {"kind": "poll", "m": mi, "N": N, "n_win": n_win, "n_lose": n_lose, "alpha": alpha})
+                    for share in (2 / 3, 1 / 3):
+                        v, got = judge_polling(m, N, n_win, n_lose, alpha, share)
+                        rec.trans()
+                        rec.evals(2)
+                        if got is not None:
+                            rec.vac("supermajority_polling_tallies")
+                        rec.observe(("poll", mi, N, n_win, n_lose, alpha, share, got))
+                        for key, what in v:
+                            rec.violate(key, what, {"kind": "poll", "m": mi, "N": N, "n_win": n_win, "n_lose": n_lose, "alpha": alpha, "share": share})
     elif kind == "contest":
         _, mi, N = sh
         m = METHODS[mi]
@@ -773,7 +785,7 @@ def run_case(case):
     if k == "oa":
         return judge_oneaudit_audit(METHODS[case["m"]], case["N"], case["k_win"], tuple(case["pooled"]), case["r1"], case["r2"], case["alpha"])[0]
     if k == "poll":
-        return judge_polling(METHODS[case["m"]], case["N"], case["n_win"], case["n_lose"], case["alpha"])[0]
+        return judge_polling(METHODS[case["m"]], case["N"], case["n_win"], case["n_lose"], case["alpha"], case.get("share"))[0]
     if k == "contest":
         return judge_contest_level(METHODS[case["m"]], case["N"], tuple(case["tallies"]), case["alpha"], case["r1"])[0]
     if k == "nostyle":
